@@ -1,4 +1,5 @@
 import GoRedisModel.Proofs.Table
+import GoRedisModel.Proofs.SourceFacts
 /-! # C05 — commands reach the handler with exactly the arguments the client sent -/
 namespace GoRedis
 
@@ -93,5 +94,10 @@ example : b!"RENAME" ∉ systemNames ∧ (⟨b!"RENAME", .ss fun k n => .rename 
   constructor
   · decide
   · simp [grammar]
+
+/-- the executor table of the current source names exactly the commands the model dispatches on (regenerated on every run) -/
+theorem C05_source_commands_match_model :
+    (Generated.registeredCommands.all fun n => modelCommandNames.contains n) = true ∧
+    (modelCommandNames.all fun n => Generated.registeredCommands.contains n) = true := source_commands_match_model
 
 end GoRedis
